@@ -21,6 +21,7 @@ RULE = ("cases = (literal, position): literals of length 0..40 over the clean al
         "(column DEFAULT, column COMMENT, table COMMENT hql, table COMMENT = snowflake, inline CHECK comparand, named table CHECK, "
         "CREATE TYPE enum value, mysql ENUM column value, LOCATION, TBLPROPERTIES value, schema COMMENT, ALTER ADD DEFAULT FOR); "
         "numeric defaults of 1..19 digits with leading zeros. Non-trivial = every (literal, position) pair; distinct = distinct pair.")
+RULE += (" Added after seeded defects: the respacing known finding is classified by a frozen executable model of the pinned substitutions (anything else on such a literal is a violation), more parenthesis literals, a backslash-escaped quote class (verbatim at the two positions that translate the placeholder back, exact-model known finding elsewhere).")
 ASSUMPTIONS = ["no literal contains an unpaired quote or a backslash", "a literal is placed on one line (no TAB/newline directly before it: C05 owns that)"]
 MIN_EVENTS = {"statements": 100, "run_return": 100}
 
